@@ -100,7 +100,8 @@ def scenarios(quick):
         conf=[(T.eph_side(maxseq=2), 'SpecPrompt', 8 if quick else 100, 200, dict(max_faults=1, fault_kinds=['stall', 'kill'], victims=['E', 'W'])),
               (T.tee_rejoin_eph(maxseq=2), 'SpecPrompt', 8 if quick else 100, 250, {}),
               (T.eph_side(maxseq=2), 'Spec', 6 if quick else 60, 250, {}),
-              (T.eph_multi(maxseq=2), 'SpecPrompt', 8 if quick else 80, 250, {})],
+              (T.eph_multi(maxseq=2), 'SpecPrompt', 8 if quick else 80, 250, {}),
+              (T.eph_first(maxseq=2), 'SpecPrompt', 6 if quick else 60, 250, {})],
         rand=[(T.eph_side(maxseq=4), 8 if quick else 150, 800, 0.05, 0.03),
               (T.tee_rejoin_eph(maxseq=4), 8 if quick else 150, 1200, 0.03, 0.0),
               (T.balance2_watch(maxseq=4), 6 if quick else 100, 1000, 0.03, 0.0),
